@@ -105,6 +105,7 @@ type FuncCtx struct {
 	poison         *poisonState
 	rfamCache      []famInst
 	arrViewSrc     map[string]arrViewInfo
+	iteSplitDepth  int
 	recInfos       map[*SpecFunc]*recInfo
 	recBuilding    *recInfo
 	recSeen        map[string]bool
